@@ -54,7 +54,11 @@ ASSUMPTIONS = ["float64 arithmetic modelled as exact real arithmetic; np.allclos
                "ldl -> (lu, d, perm) with A = lu d lu^{H|T} and lu[perm] unit lower triangular; qr -> (q, r), q^H q = I",
                "np.linalg.inv is a contract oracle (B with A B = B A = I), splu(A).solve a contract oracle (op(A) x = b) "
                "or exact substitution for triangular matrices",
-               "CG: A Hermitian positive definite (as documented), tol > 0 symbolic; norm comparisons decided on squares"]
+               "CG: A Hermitian positive definite (as documented), tol > 0 symbolic; norm comparisons decided on squares; the first "
+               "preconditioned residual is parametrised as rho * u with a rationally parametrised unit vector u (all non-zero "
+               "vectors), so that sqrt(|z|^2) = rho is returned after proving rho^2 == |z|^2",
+               "CG: no breakdown - paths on which orth() drops the new search direction as an exact zero vector are cut (for SPD A "
+               "and preconditioner that requires r = 0, excluded by the failed tolerance test; not refutable by the solver)"]
 ITEM_TIMEOUT = {"quick": 100, "thorough": 900}
 REPLAYS_PER_GROUP = 2
 
@@ -295,10 +299,13 @@ def sc_ldl(V, P, cfg):
     _register(V, "ldl", (lfull, D, perm))
     s = SolverDenseLDL(hermitian=cfg["hermitian"])
     s.update(A)
-    obs = _solve_all(V, P, s, A, _xstar(V, n, xc), "ldl-%s" % cfg["variant"], {})
     if P is not None and cfg["hermitian"] is None:
         # auto-detection: the flag the solver settled on must describe the matrix on this path
-        P.holds("ldl:auto-flag", _is_herm(A) if s.hermitian else _is_sym(A), kind="ldl:auto-flag")
+        o = P.holds("ldl:auto-flag", _is_herm(A) if s.hermitian else _is_sym(A), kind="ldl:auto-flag")
+        if o.status != "unsat":
+            return None      # a wrong flag is reported at once; the solves on the wrongly flagged factorization are skipped
+    obs = _solve_all(V, P, s, A, _xstar(V, n, xc), "ldl-%s" % cfg["variant"], {})
+    obs["flag"] = int(bool(s.hermitian))
     return obs
 
 
@@ -755,7 +762,19 @@ def sc_cg(V, P, cfg):
     if V.symbolic and ncol == 1 and cfg.get("inv_exact", True):
         from symx import oracles
         oracles.configure(inv_exact_1x1=True)       # p^H A p is 1x1 for a single right-hand side: inv is the reciprocal
-    spy = []
+    # observation of the tolerance tests: every np.linalg.norm(r, axis=0) call of CG.solve is intercepted (symbolic mode:
+    # the entry of the numpy stand-in; concrete mode: numpy.linalg.norm itself, restored afterwards) and the residual r it
+    # is given is recorded together with a snapshot of the iterate x of the calling frame.
+    snaps = []
+    import sys as _sys
+    import numpy.linalg as _npl
+
+    def record(arg):
+        fr = _sys._getframe(2)
+        loc = fr.f_locals
+        if fr.f_code.co_name != "solve" or "x" not in loc or arg is loc.get("b"):
+            return
+        snaps.append((np.array(arg, copy=True), np.array(loc["x"], copy=True)))
     restore = None
     if V.symbolic:
         from symx import npshim
@@ -764,7 +783,7 @@ def sc_cg(V, P, cfg):
         orig_sqrt = npshim.OVERRIDES["sqrt"]
 
         def norm_spy(x, *a, **k):
-            spy.append(x)
+            record(x)
             return orig(x, *a, **k)
 
         def sqrt_preimage(x, *a, **k):
@@ -781,6 +800,23 @@ def sc_cg(V, P, cfg):
         npshim._linalg._ov["norm"] = norm_spy
         npshim.OVERRIDES["sqrt"] = sqrt_preimage
         restore = (npshim._linalg._ov, orig, orig_sqrt)
+    else:
+        real_norm = _npl.norm
+
+        def norm_spy(x, *a, **k):
+            record(x)
+            return real_norm(x, *a, **k)
+        _npl.norm = norm_spy
+    k = "cg:%s:maxit%d:restart%d" % (t, maxit, restart)
+    bm = np.asarray(b).reshape(n, ncol)
+
+    def state_invariants():
+        # (1) at every tolerance test, the residual the code measures is the true residual of its current iterate
+        for i_, (r_, x_) in enumerate(snaps):
+            obl = P.arrays_eq("cg:invariant[%d] r==b-op(A)x" % i_, np.asarray(r_).reshape(n, ncol),
+                              bm - _op(A, t) @ np.asarray(x_).reshape(n, ncol), kind=k + ":invariant")
+            _fallback_probe(V.c, obl, np.asarray(r_).reshape(n, ncol), bm - _op(A, t) @ np.asarray(x_).reshape(n, ncol))
+    broke = False
     try:
         s = CG(Ain, preconditioner=prec, tol=tol, maxit=maxit, restart=restart)
         with warnings.catch_warnings(record=True) as wl:
@@ -788,40 +824,39 @@ def sc_cg(V, P, cfg):
             try:
                 x = s.solve(b.copy(), x0=(None if x0 is None else x0.copy()), trans=t)
             except ValueError as e:
-                if V.symbolic and cfg["prec"] == "free" and "at least one array" in str(e):
-                    # an arbitrary preconditioner output can cancel the search direction exactly (z = -p beta); a positive
-                    # definite preconditioner cannot (p^H r = 0 after the step): outside the abstraction
-                    from symx.ctx import PathAbort
-                    raise PathAbort("free preconditioner: zero search direction")
-                raise
+                if not (V.symbolic and "at least one array" in str(e)):
+                    raise
+                broke = True
         warned = any("Maximum iterations" in str(w_.message) for w_ in wl)
     finally:
         if restore is not None:
             restore[0]["norm"] = restore[1]
             npshim.OVERRIDES["sqrt"] = restore[2]
-    obs = dict(x=x, warned=int(warned), A=A, b=b)
+        else:
+            _npl.norm = real_norm
+    if broke:
+        # orth() dropped the new search direction z + p beta as an exact zero vector (np.stack of nothing raises).  For a
+        # positive definite A and preconditioner this needs r = 0 (p^H r = 0 after the step), which contradicts the failed
+        # tolerance test on this path; z3 cannot refute the algebraic variety {z + p beta = 0}, so the path is cut after the
+        # invariants of the tests seen so far have been stated (assumption "no breakdown", listed in ASSUMPTIONS).
+        state_invariants()
+        from symx.ctx import PathAbort
+        raise _Breakdown("zero search direction (breakdown) excluded")
+    obs = dict(x=x, warned=int(warned), A=A, b=b, nsnap=len(snaps))
+    for i_, (r_, x_) in enumerate(snaps[:3]):
+        obs["snap_r%d" % i_], obs["snap_x%d" % i_] = _fin(V, r_), _fin(V, x_)
     if P is not None:
-        k = "cg:%s:maxit%d:restart%d" % (t, maxit, restart)
         P.holds("cg:shape", np.shape(x) == shp, kind="cg:shape")
-        res = np.asarray(b).reshape(n, ncol) - _op(A, t) @ np.asarray(x).reshape(n, ncol)
-        # (1) the residual whose norm the code tested last is the true residual of the returned x.  The spy sees every
-        #     argument of np.linalg.norm: the right-hand side itself (same element objects as b) and the residuals r.
-        bflat = list(np.asarray(b).flat)
-
-        def is_b(arr):
-            fl = list(np.asarray(arr).flat)
-            return len(fl) == len(bflat) and all(e is f for e, f in zip(fl, bflat))
-        rs = [a_ for a_ in spy if not is_b(a_)]
-        if not rs and len(spy) >= 2:
-            rs = [spy[0]]       # x = 0: the initial residual b - A @ 0 consists of the very elements of b
-        P.holds("cg:residual-norm-observed", len(rs) >= 1 and len(spy) >= 2, kind="cg:invariant")
-        if rs:
-            P.arrays_eq("cg:invariant r==b-op(A)x", np.asarray(rs[-1]).reshape(n, ncol), res, kind=k + ":invariant")
-        # (2) what the code tested last: returned without the max-iteration warning  =>  |r|^2 <= tol^2 |b|^2 for every
-        #     column of that r, and a warning only if some column is above the tolerance.  With (1) this is the claim
-        #     |b - op(A) x|^2 <= tol^2 |b|^2 for the returned x (squares, no sqrt; the code divides by |b|).
-        if rs:
-            r2, b2 = _sqnorm_cols(np.asarray(rs[-1]).reshape(n, ncol)), _sqnorm_cols(np.asarray(b).reshape(n, ncol))
+        P.holds("cg:residual-norm-observed", len(snaps) >= 1, kind="cg:invariant")
+        state_invariants()
+        if snaps:
+            # (2) the returned x is the iterate of the last tolerance test
+            P.arrays_eq("cg:returned-x-is-tested-x", np.asarray(x).reshape(n, ncol), np.asarray(snaps[-1][1]).reshape(n, ncol),
+                        kind=k + ":returned")
+            # (3) what the code tested last: returned without the max-iteration warning  =>  |r|^2 <= tol^2 |b|^2 for every
+            #     column of that r, and a warning only if some column is above the tolerance.  With (1) and (2) this is
+            #     |b - op(A) x|^2 <= tol^2 |b|^2 for the returned x (squares, no sqrt; the code divides by |b|).
+            r2, b2 = _sqnorm_cols(np.asarray(snaps[-1][0]).reshape(n, ncol)), _sqnorm_cols(bm)
             if not warned:
                 for j in range(ncol):
                     P.holds("cg:converged-claim[%d]" % j, r2[j] / b2[j] <= tol_t * tol_t, kind=k + ":converged")
@@ -829,6 +864,67 @@ def sc_cg(V, P, cfg):
                 P.holds("cg:warning-only-if-not-converged", _any_true([r2[j] / b2[j] > tol_t * tol_t for j in range(ncol)]),
                         kind=k + ":warning")
     return obs
+
+
+class _Breakdown(BaseException):
+    """raised by sc_cg after the obligations of a cut path have been stated (converted to PathAbort by _cg_entry)"""
+
+
+def _cg_entry(V, P, cfg):
+    try:
+        return sc_cg(V, P, cfg)
+    except _Breakdown as e:
+        from symx.ctx import PathAbort
+        # the obligations stated before the cut must survive: common.symbolic_run drops aborted paths, so they are kept in
+        # a side list and re-attached by run_item
+        _PENDING.extend(P.obls)
+        raise PathAbort(str(e))
+
+
+_PENDING = []
+
+
+def _fallback_probe(c, obls, lhs, rhs, tries=48):
+    """DESIGN.md 3.7 (6): an equality the solver left `unknown` is probed at pseudo-random rational points; a point that
+    satisfies assumptions + path condition and violates the equality is a genuine model (status sat, found by the probe).
+    Passing the probe never counts as discharge."""
+    from symx.decide import _diff_num, model_env
+    if not any(o.status == "unknown" for o in obls):
+        return
+    import zlib
+    cs = c.base_constraints()
+    diffs = []
+    for i in np.ndindex(*lhs.shape):
+        a_, b_ = lhs[i], rhs[i]
+        parts = [(a_.re, b_.re), (a_.im, b_.im)] if isinstance(a_, C) or isinstance(b_, C) else [(a_, b_)]
+        for (u_, v_) in parts:
+            if isinstance(u_, R) or isinstance(v_, R):
+                diffs.append(_diff_num(u_, v_))
+    if not diffs:
+        return
+    goal = z3.Or(*[d != 0 for d in diffs])
+    for j in range(tries):
+        s = z3.Solver()
+        for name, tsym in c.symbols.items():
+            if not z3.is_real(tsym):
+                continue
+            h = zlib.crc32(("probe|%s|%d" % (name, j)).encode())
+            kk = (h % 31) + 1
+            if tsym.get_id() in c.known_neg or (tsym.get_id() not in c.known_pos and (h >> 9) & 1):
+                kk = -kk
+            s.add(tsym == z3.RatVal(kk, 8))
+        if s.check() != z3.sat:
+            continue
+        m = s.model()
+        try:
+            if all(z3.is_true(m.eval(x_, model_completion=True)) for x_ in cs) and z3.is_true(m.eval(goal, model_completion=True)):
+                env = model_env(m, c)
+                for o in obls:
+                    if o.status == "unknown":
+                        o.status, o.stage, o.model = "sat", "fallback-probe", env
+                return
+        except z3.Z3Exception:
+            return
 
 
 DEG_MATS = {"r1": [[2.0, 0.5], [0.5, 3.0]], "r2": [[1.0, -2.0], [-2.0, 5.0]], "c1": [[2.0, 0.5 + 0.25j], [0.5 - 0.25j, 3.0]]}
@@ -1000,7 +1096,7 @@ def _lin1d(i):
 
 # ------------------------------------------------------------------------------------------------
 SCEN = dict(diagonal=sc_diagonal, lu=sc_lu, ldl=sc_ldl, cholesky=sc_cholesky, qr=sc_qr, sparselu=sc_sparse_lu,
-            precond=sc_precond, auto=sc_auto, cg=sc_cg, cgdeg=sc_cg_degenerate, orth=sc_orth, multigrid=sc_multigrid)
+            precond=sc_precond, auto=sc_auto, cg=_cg_entry, cgdeg=sc_cg_degenerate, orth=sc_orth, multigrid=sc_multigrid)
 
 
 def _perms(n, tier, what):
@@ -1191,7 +1287,17 @@ def run_item(cfg, tier):
             kw["feas_timeout_ms"] = 8000        # SQRT-function encoding: give the solver time to refute the beta == 0 side
     if cfg["kind"] == "qr":
         kw["obl_timeout_ms"] = 30000 if tier == "quick" else 120000    # identities modulo the two unit-norm relations
-    return symbolic_run(SCEN[cfg["kind"]], cfg, tier, max_paths=MAX_PATHS.get(cfg["kind"], 20), **kw)
+    del _PENDING[:]
+    out = symbolic_run(SCEN[cfg["kind"]], cfg, tier, max_paths=MAX_PATHS.get(cfg["kind"], 20), **kw)
+    # obligations stated on CG paths that were cut afterwards (breakdown): decided under that path's condition
+    import hashlib
+    for i, o in enumerate(_PENDING):
+        d = o.as_dict()
+        d["path"] = -1
+        d["key"] = hashlib.md5(("%s|cut%d|%s" % (cfg.get("id"), i, o.label)).encode()).hexdigest()[:12]
+        out["obligations"].append(d)
+    del _PENDING[:]
+    return out
 
 
 # ------------------------------------------------------------------------------------------------
@@ -1229,7 +1335,12 @@ def replay(cfg, label, env, case):
             if label.startswith("cholesky:branch"):
                 return dict(reproduced=None, detail="branch bookkeeping of the harness, no numerical clause")
             if label.startswith("ldl:auto-flag"):
-                return dict(reproduced=None, detail="flag bookkeeping, see the residual obligations")
+                Am = np.asarray(obs["A"], dtype=complex)
+                herm = bool(np.allclose(Am, Am.conj().T, rtol=1e-9, atol=1e-12))
+                symm = bool(np.allclose(Am, Am.T, rtol=1e-9, atol=1e-12))
+                bad = (obs["flag"] == 1 and not herm) or (obs["flag"] == 0 and not symm)
+                return dict(reproduced=bool(bad), detail=dict(hermitian_flag=obs["flag"], is_hermitian=herm, is_symmetric=symm,
+                                                              A=Am.tolist()))
             return dict(reproduced=None, detail="no replay for label %s" % label)
         t, sk = parts[1], parts[2]
         M = np.asarray(obs["M"] if kind == "precond" else obs["A"], dtype=complex)
@@ -1278,8 +1389,25 @@ def replay(cfg, label, env, case):
         if label == "cg:shape":
             return dict(reproduced=bool(x.shape != b.shape), detail=dict(shape_x=list(x.shape), shape_b=list(b.shape)))
         ncol = 1 if b.ndim == 1 else b.shape[1]
-        res = b.reshape(2, ncol) - _op(A, cfg["trans"]) @ x.reshape(2, ncol)
-        rel = np.linalg.norm(res, axis=0) / np.linalg.norm(b.reshape(2, ncol), axis=0)
+        M = _op(A, cfg["trans"])
+        bm = b.reshape(2, ncol)
+        scale = max(1.0, float(np.max(np.abs(bm))))
+        if label.startswith("cg:invariant["):
+            i_ = int(label.split("[")[1].split("]")[0])
+            if "snap_r%d" % i_ not in obs:
+                return dict(reproduced=False, detail="the real code made only %d tolerance tests" % obs["nsnap"])
+            r_ = np.asarray(obs["snap_r%d" % i_], dtype=complex).reshape(2, ncol)
+            x_ = np.asarray(obs["snap_x%d" % i_], dtype=complex).reshape(2, ncol)
+            err = float(np.max(np.abs(r_ - (bm - M @ x_)))) / scale
+            return dict(reproduced=bool(err > tol), detail=dict(test=i_, tested_residual=r_.tolist(), true_residual=(bm - M @ x_).tolist(),
+                                                               x=x_.tolist(), A=A.tolist(), b=b.tolist(), error=err))
+        if label.startswith("cg:returned-x"):
+            i_ = min(obs["nsnap"], 3) - 1
+            x_ = np.asarray(obs["snap_x%d" % i_], dtype=complex).reshape(2, ncol) if i_ >= 0 else None
+            bad = x_ is None or (obs["nsnap"] <= 3 and float(np.max(np.abs(x_ - x.reshape(2, ncol)))) > tol * scale)
+            return dict(reproduced=bool(bad), detail=dict(returned=x.tolist(), tested=None if x_ is None else x_.tolist()))
+        res = bm - M @ x.reshape(2, ncol)
+        rel = np.linalg.norm(res, axis=0) / np.linalg.norm(bm, axis=0)
         tl = float(env.get("tol", 0.25))
         warned = bool(obs["warned"])
         bad = (not warned and rel.max() > tl * (1 + 1e-6)) or (warned and rel.max() < tl * (1 - 1e-6))
